@@ -447,3 +447,4 @@ end Restful
 -- also: Restful.TieImp.jsr_select_route
 -- also: Restful.TieImp.build_route
 -- also: Restful.TieImp.copy_defaults
+-- also: Restful.TieImp.build_route_no_function
